@@ -12,7 +12,7 @@ from engine.expr import Ex, norm, show, walk, alts
 from engine.intervals import dominating_facts
 from engine.mir import AnchorLost, callee_matches
 from engine.paths import paths, decided, called, outcome
-from engine.query import calls_matching, where, find_switch_on, aggregates, ret_alts, single_bit
+from engine.query import calls_matching, where, find_switch_on, aggregates, ret_alts, single_bit, precedes_on_every_path
 from rules.C01 import msdos_arg_order
 from rules.shared_codec import reader_table, tokens
 
@@ -106,7 +106,7 @@ def drain_rules(facts, rep):
             if rv["k"] == "use" and rv["op"]["k"] in ("copy", "move"):
                 fp = [p for p in rv["op"]["place"]["p"] if p["k"] == "field"]
                 if fp and fp[-1]["n"] == "compressed_size" and "ZipFileData" in (fp[-1].get("adt") or ""):
-                    good = bool(pe) and st.dominates(pe[0][0], bi)
+                    good = bool(pe) and (st.dominates(pe[0][0], bi) or precedes_on_every_path(st, pe[0][0], bi) is True)
                     detail = "compressed_size loaded %s parse_extra_field" % ("after" if good else "BEFORE")
     ok &= rep.check(good, rule, "window=zip64-corrected-size", where(st, tk[0][1]["span"]),
                     "entry window = result.compressed_size read after the ZIP64 extra field was applied",
